@@ -20,7 +20,7 @@ from harness import text as T
 from harness import textcheck as TC
 from props import _text as X
 
-PROPS = ["Octave.Props.C05", "Octave.Props.C05zones", "Octave.Props.C05roundtrip", "Octave.Props.C05tree"]
+PROPS = ["Octave.Props.C05", "Octave.Props.C05zones", "Octave.Props.C05roundtrip", "Octave.Props.C05tree", "Octave.Props.C05bare"]
 
 
 def kf_single_empty_line_zone(case) -> bool:
